@@ -140,7 +140,7 @@ func TestVerifC33Iceberg(t *testing.T) {
 	c33TuneRaceRuntime()
 	r := verifkit.Start(t, "C33", "iceberg")
 	defer r.Finish(c33Rule, c33Assumptions...)
-	caps := c33Caps{Proc: "iceberg", LFS: true, PollSecs: []int{5, 1, 7, 12}, RandQuick: 100, RandThorough: 2000, RandLargeQuick: 40, RandLargeThorough: 1200, EncodeLFS: c33IceEncodeLFS}
+	caps := c33Caps{Proc: "iceberg", LFS: true, PollSecs: []int{5, 1, 7, 12}, RandQuick: 100, RandThorough: 2000, RandLargeQuick: 40, RandLargeThorough: 500, EncodeLFS: c33IceEncodeLFS}
 	build := func(w *c33World) func(ctx context.Context) error {
 		var store checkpoint.Store = c33IceStore{w: w}
 		if w.c.Store == "default" {
